@@ -22,6 +22,8 @@ const PushFrom pushFroms[] = {
     { "stranger", "contact@example.net/x", Unauthorised },
     { "lookalike", "user@example.org.evil.net", Unauthorised },
     { "roster-contact-a", "a@example.net/r1", Unauthorised },
+    // the sender is a stranger; an attribute named 'from' in another namespace carries the own bare JID (spliced in through the quote)
+    { "stranger-plus-foreign-namespace-from-attribute", "contact@example.net/x' xmlns:x='urn:verif:x' x:from='user@example.org", Unauthorised },
 };
 const int NPF = sizeof(pushFroms) / sizeof(pushFroms[0]);
 
